@@ -30,6 +30,15 @@ def SM(cfg, **kw):
     return dict(mode="mc", cfg=cfg, kind="counter", module="OrdaSync.tla", **kw)
 
 
+def MU(tier):
+    """several datatypes per client through the public API (Client.Sync over gRPC, one message with a pack per datatype)"""
+    e = dict(mode="edge", cfg="multi_2x2_edge", kind="counter", n=2, tool="multireplay", dump_module="OrdaMultiDump.tla")
+    sm = dict(mode="sim", cfg="multi_sim", kind="counter", n=3, tool="multireplay", dump_module="OrdaMultiDump.tla")
+    if tier == "quick":
+        return [dict(e, rate=0.015), dict(sm, num=6, depth=60)]
+    return [dict(mode="mc", cfg="multi_big", kind="counter", module="OrdaMulti.tla"), dict(e, rate=0.5), dict(sm, num=300, depth=80)]
+
+
 def multi(tier, props_doc=True):
     """multi-replica histories shared by C01, C02, C15"""
     if tier == "quick":
@@ -68,8 +77,8 @@ def jobs(prop, tier):
                     # the same protocol histories with a List (tagged inserts at head / middle): the order of the
                     # elements at settled points depends on the clocks the clients carry through their entry
                     SE("sync_join_edge", 2, rate=0.08, kind="list"), SE("sync_sc_edge", 2, rate=0.03, kind="list"),
-                    SE("sync_3_edge", 3, rate=0.003, kind="list"), SS("sync_sim", 3, 20, 60, kind="list")]
-        return [SM("sync_basic"), SM("sync_sc"), SM("sync_3"), SM("sync_big"), SM("sync_join"), SE("sync_basic_edge", 2), SE("sync_sc_edge", 2),
+                    SE("sync_3_edge", 3, rate=0.003, kind="list"), SS("sync_sim", 3, 20, 60, kind="list")] + MU(tier)
+        return MU(tier) + [SM("sync_basic"), SM("sync_sc"), SM("sync_3"), SM("sync_big"), SM("sync_join"), SE("sync_basic_edge", 2), SE("sync_sc_edge", 2),
                 SE("sync_3_edge", 3, rate=0.05), SS("sync_sim", 3, 600, 80),
                 SE("sync_join_edge", 2, kind="list"), SE("sync_sc_edge", 2, kind="list"), SE("sync_basic_edge", 2, kind="list"),
                 SE("sync_3_edge", 3, rate=0.05, kind="list"), SS("sync_sim", 3, 400, 80, kind="list")]
@@ -155,8 +164,8 @@ def jobs(prop, tier):
         ff = dict(dump_module="OrdaSyncFaultProbeDump.tla")     # resets after a handler run cut in half by a storage fault
         if q:
             return [dict(SE("sync_probe17_edge", 2, rate=0.3), **f), dict(SE("sync_faultprobe17_edge", 2, rate=0.1), **ff),
-                    dict(SE("sync_faultprobe17sc_edge", 2, rate=0.1), **ff)]
-        return [dict(SE("sync_probe17_edge", 2), **f), dict(SE("sync_faultprobe17_edge", 2), **ff), dict(SE("sync_faultprobe17sc_edge", 2), **ff)]
+                    dict(SE("sync_faultprobe17sc_edge", 2, rate=0.1), **ff)] + MU(tier)
+        return [dict(SE("sync_probe17_edge", 2), **f), dict(SE("sync_faultprobe17_edge", 2), **ff), dict(SE("sync_faultprobe17sc_edge", 2), **ff)] + MU(tier)
     if prop == "C08":
         f = dict(dump_module="OrdaSyncFaultDump.tla")
         if q:
